@@ -86,6 +86,7 @@ def idLanOf (j : Json) : P (Nat × Lan) := do
 def netOpOf (j : Json) : P NetOp := do
   match ← asArr j with
   | [.str "add", i, l, r] => pure (.add (← asNat i) (← lanOf l) (← asBool r))
+  | [.str "add_from", ls] => pure (.addFrom (← listOf idLanOf ls))
   | [.str "remove", i, r] => pure (.remove (← asNat i) (← asBool r))
   | [.str "tr", v] => pure (.translateRotate (← asNat v))
   | [.str "to2d", v] => pure (.convert2d (← asNat v))
